@@ -213,7 +213,7 @@ func emitC04(c *Ctx, kind uint64, o wOpts, roots []cid.Cid, ops VL) {
 	c.Emit("storemap", in, obs, len(ops) >= 4 && okPut && queryAfter)
 }
 
-// the 12 option rows of the exhaustive small-scope sub-space
+// the 14 option rows of the exhaustive small-scope sub-space
 func c04Rows() []wOpts {
 	d := defaultWOpts
 	row := func(f func(o *wOpts)) wOpts { o := d; f(&o); return o }
@@ -230,8 +230,15 @@ func c04Rows() []wOpts {
 		row(func(o *wOpts) { o.storeID = true; o.maxCid = 36 }),
 		row(func(o *wOpts) { o.dpad = 7; o.ipad = 1; o.codec = 0x0400 }),
 		row(func(o *wOpts) { o.storeID = true; o.whole = true; o.v1 = true; o.maxCid = 36; o.dpad = 1 }),
+		// rows 12, 13: CARv2 whose Finalize FAILS (store.Finalize cannot build the index):
+		// carv2.WithoutIndex() (IndexCodec = index.CarIndexNone) and an index codec that does not exist
+		row(func(o *wOpts) { o.codec = c04CodecNone }),
+		row(func(o *wOpts) { o.codec = 0x55; o.dups = true; o.ipad = 1 }),
 	}
 }
+
+// index.CarIndexNone: what carv2.WithoutIndex() sets; index.New refuses it, so Finalize fails
+const c04CodecNone = 0x300000
 
 func c04OpSet(kind uint64, alpha []Blk, reduced bool) []Val {
 	var ops []Val
@@ -321,6 +328,20 @@ func c04Example(c *Ctx) {
 	}
 	c.Count("history:coq-example")
 	emitC04(c, 0, o, []cid.Cid{cA}, ops)
+	// Example C04_example_failed_finalize_closes: WithoutIndex, Finalize fails and closes, both front-ends
+	on := o
+	on.codec = c04CodecNone
+	for _, kind := range []uint64{1, 0} {
+		emitC04(c, kind, on, []cid.Cid{cA}, VL{VL{VT("put"), k(cA), VB(data)}, VL{VT("finalize")}, VL{VT("put"), k(cX), VB(data)},
+			VL{VT("has"), k(cA)}, VL{VT("get"), k(cA)}, VL{VT("finalize")}})
+	}
+	// Example C04_example_across_reopen: a session, Finalize, reopen, and on
+	emitC04(c, 0, o, []cid.Cid{cA}, VL{
+		VL{VT("put"), k(cA), VB(data)}, VL{VT("has"), k(cA)}, VL{VT("put"), k(cI), VB(digest)}, VL{VT("keys")}, VL{VT("finalize")},
+		VL{VT("reopen"), o.val(), cidsVal([]cid.Cid{cA})},
+		VL{VT("has"), k(cI)}, VL{VT("put"), k(cA), VB(data)}, VL{VT("put"), k(cX), VB(data)}, VL{VT("get"), k(cX)}, VL{VT("keys")},
+		VL{VT("finalize")}, VL{VT("has"), k(cA)},
+	})
 	// Example C04_example_callers_file_outs: the same store on a caller-owned file, used after Discard
 	emitC04(c, 5, o, []cid.Cid{cA}, VL{
 		VL{VT("put"), k(cA), VB(data)}, VL{VT("discard")}, VL{VT("roots")}, VL{VT("finalizero")}, VL{VT("finalize")},
@@ -343,6 +364,10 @@ func init() {
 			if kind == 3 {
 				o.v1 = true
 			}
+			if r.Chance(12) { // Finalize will fail (CARv2): WithoutIndex / unsupported index codec
+				o.codec = uint64(pick(r, []int{c04CodecNone, c04CodecNone, 0x55, 0x0129}))
+				c.Count("opts:finalize-fails-codec")
+			}
 			var alpha []Blk
 			if r.Chance(70) {
 				alpha = c04Alphabet(r, false)
@@ -363,6 +388,15 @@ func init() {
 				c.Count("history:lifecycle-then-use")
 			}
 			c.Count("history:random")
+			if (kind == 0 || kind == 1) && r.Chance(35) {
+				// reopen the file once or twice in the middle of the history (same roots and options): the
+				// resumed store must go on as the map holding the blocks stored so far
+				for j := 0; j < 1+r.Intn(2); j++ {
+					at := r.Intn(len(ops) + 1)
+					ops = append(ops[:at:at], append(VL{VL{VT("reopen"), o.val(), cidsVal(roots)}}, ops[at:]...)...)
+				}
+				c.Count("history:with-reopen")
+			}
 			emitC04(c, kind, o, roots, ops)
 		}
 		// (1b) the two canonical collision scenarios (equal digest under another hash code) and the
@@ -387,6 +421,42 @@ func init() {
 					emitC04(c, kind, o, []cid.Cid{a.Cid}, VL{VL{VT("put"), k(a), VB(a.Data)}, VL{VT("finalize")},
 						VL{VT("put"), k(d), VB(d.Data)}, VL{VT("has"), k(a)}, VL{VT("get"), k(a)}, VL{VT("finalize")}})
 					c.CountN("history:scenario", 3)
+				}
+			}
+			// a Finalize that FAILS (WithoutIndex / unsupported codec), then further use: the store is closed
+			// all the same (blockstore: FinalizeReadOnly leaves it finalized, not closed)
+			for _, kind := range []uint64{0, 5, 1, 2} {
+				for _, codec := range []uint64{c04CodecNone, 0x55} {
+					o := defaultWOpts
+					o.codec = codec
+					emitC04(c, kind, o, []cid.Cid{a.Cid}, VL{VL{VT("put"), k(a), VB(a.Data)}, VL{VT("finalize")},
+						VL{VT("put"), k(d), VB(d.Data)}, VL{VT("has"), k(a)}, VL{VT("get"), k(a)}, VL{VT("finalize")}, VL{VT("roots")}})
+					if isBS(kind) {
+						emitC04(c, kind, o, []cid.Cid{a.Cid}, VL{VL{VT("put"), k(a), VB(a.Data)}, VL{VT("finalizero")},
+							VL{VT("put"), k(d), VB(d.Data)}, VL{VT("has"), k(a)}, VL{VT("get"), k(a)}, VL{VT("finalizero")}, VL{VT("close")}, VL{VT("has"), k(a)}})
+					}
+					c.Count("history:scenario")
+				}
+			}
+			// a session, Discard or Finalize, reopen, and on (Example C04_example_across_reopen has this shape)
+			for _, kind := range []uint64{0, 1} {
+				for _, v1 := range []bool{false, true} {
+					for _, end := range []string{"finalize", "discard", ""} {
+						if end == "discard" && kind != 0 {
+							continue
+						}
+						o := defaultWOpts
+						o.v1 = v1
+						rs := []cid.Cid{a.Cid}
+						ops := VL{VL{VT("put"), k(a), VB(a.Data)}, VL{VT("has"), k(a)}}
+						if end != "" {
+							ops = append(ops, VL{VT(end)})
+						}
+						ops = append(ops, VL{VT("reopen"), o.val(), cidsVal(rs)}, VL{VT("has"), k(a)}, VL{VT("get"), k(a)},
+							VL{VT("put"), k(a), VB(a.Data)}, VL{VT("put"), k(d), VB(d.Data)}, VL{VT("get"), k(d)}, VL{VT("finalize")}, VL{VT("has"), k(a)})
+						emitC04(c, kind, o, rs, ops)
+						c.Count("history:scenario")
+					}
 				}
 			}
 			// use after Discard / Close on both blockstore variants; on the caller-owned file (kind 5) the
@@ -424,6 +494,12 @@ func init() {
 			for _, ri := range []int{0, 1} {
 				c04Exhaustive(c, 5, rows[ri], roots, c04OpSet(5, alpha, false), 2)
 				c04Exhaustive(c, 5, rows[ri], roots, c04OpSet(5, alpha, true), 3)
+			}
+			// the rows whose Finalize fails: length 3 over the reduced op set, the three front-ends
+			for _, ri := range []int{12, 13} {
+				for _, kind := range []uint64{0, 1, 5} {
+					c04Exhaustive(c, kind, rows[ri], roots, c04OpSet(kind, alpha, true), 3)
+				}
 			}
 			return
 		}
